@@ -206,7 +206,67 @@ PLANS_C16 = {"C16": dict(run=run_C16,
    trusted_base=TB_COMMON + ["verif hook /repo/incrutil/pmap/verif_hooks.go (read-only invariant check, preorder dump, sharing count)"],
    checker_cmd="make -C coq && coqc theories/Properties/C16.v")}
 
+# ------------------------------------------------------------------ C14, C15 (foldclock-builder), C17 (mapi-builder)
+
+def run_C14(ctx, K):
+    b = K.go_build(ctx, "foldtrace")
+    if not b:
+        return
+    cases = os.path.join(ctx.rundir, "cases_C14.v")
+    rep = K.run_tool(ctx, b, ["-n", str(tier_n(ctx, 300, 3000)), "-len", str(tier_n(ctx, 30, 40)), "-reduce", "70",
+                              "-rounds", str(tier_n(ctx, 4, 8)), "-coq", cases, "-coqmax", str(tier_n(ctx, 400, 2000)),
+                              "-seed", str(ctx.seed)], "fold")
+    if rep:
+        ctx.coq_cases += rep.get("coq_cases", 0)
+        K.run_cases(ctx, cases, "Fold.v~unordered_array_fold.go,reduce_balanced.go,fold.go,all.go,map_n.go")
+
+
+def run_C15(ctx, K):
+    b = K.go_build(ctx, "clocktrace")
+    if not b:
+        return
+    cases = os.path.join(ctx.rundir, "cases_C15.v")
+    rep = K.run_tool(ctx, b, ["-n", str(tier_n(ctx, 400, 4000)), "-len", str(tier_n(ctx, 30, 40)), "-coq", cases,
+                              "-coqmax", str(tier_n(ctx, 300, 1500)), "-seed", str(ctx.seed)], "clock")
+    if rep:
+        ctx.coq_cases += rep.get("coq_cases", 0)
+        K.run_cases(ctx, cases, "Clock.v~clock.go,step_function.go,graph.go(SetStale/observe/unobserve/recompute)")
+
+
+def run_C17(ctx, K):
+    b = K.go_build(ctx, "mapitrace")
+    if not b:
+        return
+    cases = os.path.join(ctx.rundir, "cases_C17.v")
+    rep = K.run_tool(ctx, b, ["-n", str(tier_n(ctx, 20, 400)), "-len", str(tier_n(ctx, 8, 10)), "-coq", cases,
+                              "-coqmax", str(tier_n(ctx, 300, 3000)), "-seed", str(ctx.seed)], "mapi-random")
+    if rep:
+        ctx.coq_cases += rep.get("coq_cases", 0)
+        K.run_cases(ctx, cases, "Mapi.v~incrutil/mapi (random edit histories, all operators)")
+
+
+PLANS_C14_15_17 = {
+    "C14": dict(run=run_C14,
+        assumptions=["theorems are about Fold.v (UnorderedArrayFold as a state machine over write/notify/recompute/unlink/relink events; "
+                     "ReduceBalanced's construction loop); the fold's `update` must satisfy its documented contract (update_contract); "
+                     "the engine's notification discipline is the predicate `admissible`, checked on every replayed history",
+                     "MapN/ArrayFold/All/ForAll/Exists as graph nodes fall under C01's engine model"],
+        trusted_base=TB_COMMON, checker_cmd="make -C coq && coqc theories/Properties/C14.v"),
+    "C15": dict(run=run_C15,
+        assumptions=["theorems are about Clock.v: time nodes inside a mini-engine mirroring SetStale/observe/unobserve/recompute of graph.go; "
+                     "the heap is abstracted to the per-node queued flag (order is C18's business); no binds, cutoffs, errors",
+                     "configurations satisfy cfg_ok (positive intervals starting no later than the clock; a snapshot's input is a var); "
+                     "time.Time/Duration overflow and the zero time are outside the model"],
+        trusted_base=TB_COMMON, checker_cmd="make -C coq && coqc theories/Properties/C15.v"),
+    "C17": dict(run=run_C17,
+        assumptions=["theorems are about Mapi.v; pmap is abstracted to its contents and SymmetricDiff/Range/Reducer to their C16 contracts (merge_diff, in-order entries, in-order fold)",
+                     "histories are the inputs at a node's recomputes; Selector/Join include the engine's necessity/notification discipline as modelled in Mapi.v",
+                     "equal must be respected by the per-entry computation (respects/eq_exact/merge_respects), as the Go docs require"],
+        trusted_base=TB_COMMON, checker_cmd="make -C coq && coqc theories/Properties/C17.v"),
+}
+
 PLANS.update(PLANS_C19_C20)
+PLANS.update(PLANS_C14_15_17)
 PLANS.update(PLANS_C16)
 
 for _pid in ENGINE_STREAMS:
